@@ -28,6 +28,8 @@ META = {
 }
 ENCAP = (1, 2, 3, 0x64, 0x65, 0x69, 0xFFFF, 0x100, 0x10000, 0x650000, 0x1000000, 0x80000000, 0xFFFF0000, 0xFFFFFFFF)  # every byte and every half of the 32-bit status word on its own
 EXTS = ((), (0x2105,), (0x0204,), (0x7777,), (1, 2), (0x0000,))
+GEN_SERVICES = (0x01, 0x03, 0x0A, 0x0E, 0x10, 0x4C, 0x4E, 0x52, 0x53, 0x55)
+CONTINUING = {0x03, 0x0A, 0x52, 0x53, 0x55}  # the services that legitimately continue (cip/services.py MULTI_PACKET_SERVICES as anchored)
 SUBS = (0x00, 0x01, 0x7F, 0x80, 0xFF)
 
 
@@ -40,9 +42,20 @@ def status_text_ok(err, st, ext):
     named = (txt is not None and txt in err) or (f"{st:02x}" in err.lower())
     if not named:
         return False
-    if len(ext) == 1 and ext[0] in EXTEND_CODES.get(st, {}):
-        return EXTEND_CODES[st][ext[0]] in err
+    if 1 <= len(ext) <= 2:
+        # the additional status is a little-endian number of 1 or 2 words; (code, 0) is the same number as (code,)
+        value = sum(w << (16 * i) for i, w in enumerate(ext))
+        if value in EXTEND_CODES.get(st, {}):
+            return EXTEND_CODES[st][value] in err
     return True
+
+
+def exts_for(st):
+    """EXTS plus every extended code the library's table knows for this status, as one word and as two words."""
+    from pycomm3.cip import EXTEND_CODES
+
+    known = tuple(EXTEND_CODES.get(st, {}))
+    return EXTS + tuple((c,) for c in known if (c,) not in EXTS) + tuple((c, 0) for c in known)
 
 
 class World:
@@ -185,7 +198,7 @@ def run_status(rep, kind, tier):
     wd = World()
     o = call(wd.d.open)
     for st in statuses:
-        for ext in EXTS:
+        for ext in exts_for(st):
             if st == 0 and ext:
                 continue
             if tier != "thorough" and ext in ((0x7777,), (1, 2), (0x0000,)) and st not in (1, 4, 5, 6, 0xFF, 0x1E, 0x13):
@@ -217,7 +230,7 @@ def run_generic(rep, transport, tier):
     call(wd.d.open)
     kw = dict(connected=True) if transport == "connected" else dict(connected=False, unconnected_send=(transport == "ucsend"), route_path=(transport == "ucsend"))
     for st in range(256):
-        for ext in EXTS:
+        for ext in exts_for(st):
             if st == 0 and ext:
                 continue
             for data in (b"", b"\x01\x02\x03"):
@@ -228,8 +241,35 @@ def run_generic(rep, transport, tier):
                 if st == 6 and transport == "connected":
                     rule = "fail"  # 0x0E is not a multi-packet service
                 check_status_case(rep, f"generic-{transport}", st, ext, out, rule, "generic")
+    # the service decides whether 6 (partial transfer) is a success; the requested data type must not
+    from pycomm3 import UINT, Struct, USINT
+
+    pair = Struct(USINT("lo"), USINT("hi"))
+    for svc in GEN_SERVICES:
+        for dt_name, dt, want in (("none", None, b"\x01\x02"), ("UINT", UINT, 0x0201), ("struct", pair, {"lo": 1, "hi": 2})):
+            for st in (0, 6, 5):
+                wd.reply = (st, [], b"\x01\x02")
+                wd.w.io_budget = wd.w.io_total + 6000
+                out = call(wd.d.generic_message, service=svc, class_code=0x99, instance=1, data_type=dt, **kw)
+                cont = svc in CONTINUING
+                must_ok = st == 0 or (st == 6 and cont and transport == "connected")
+                free = st == 6 and cont and transport != "connected"  # SendRRData has no continuing services in the library; nothing demanded
+                prob = None
+                if out[0] not in ("ok", "pycomm"):
+                    prob = ("foreign-exception", f"{out!r:.120}")
+                elif must_ok and not result_ok(out):
+                    prob = ("success-rejected", f"service {svc:#04x} status {st} data_type {dt_name}: a success by the status words comes back as {out!r:.100}")
+                elif must_ok and getattr(out[1], "value", None) != want:
+                    prob = ("success-value", f"service {svc:#04x} status {st} data_type {dt_name}: value {getattr(out[1], 'value', None)!r:.60}, the reply data decode to {want!r}")
+                elif not must_ok and not free and result_ok(out):
+                    prob = ("error-accepted", f"service {svc:#04x} status {st} data_type {dt_name} reported as success: {out!r:.100}")
+                elif not must_ok and not free and out[0] == "ok" and not status_text_ok(error_of(out), st, ()):
+                    prob = ("error-text", f"service {svc:#04x} status {st} data_type {dt_name}: error {error_of(out)!r:.80} does not name the status")
+                rep.case(("generic-svc", transport, svc, dt_name, st), outcome="ok" if prob is None else prob[0])
+                if prob:
+                    rep.violation(f"generic/{transport}/service-sweep/{prob[0]}/status{st}/{'continuing' if cont else 'plain'}/{dt_name}", prob[1], {"kind": "generic-svc", "transport": transport, "service": svc, "status": st, "data_type": dt_name})
     wd.close()
-    rep.sample({"generic": transport, "statuses": "0..255 x ext sizes 0/1/2"})
+    rep.sample({"generic": transport, "statuses": "0..255 x ext sizes 0/1/2 + every extended code of the table as 1 and 2 words", "services": [hex(x) for x in GEN_SERVICES]})
 
 
 def run_multi(rep, op, tier):
@@ -524,6 +564,8 @@ def replay(r):
             run_generic(rep, r["req"][8:], "quick")
         else:
             run_status(rep, r["req"], "thorough")
+    elif k == "generic-svc":
+        run_generic(rep, r["transport"], "quick")
     elif k == "multi":
         run_multi(rep, r["op"], "quick")
     elif k == "encap":
